@@ -219,6 +219,23 @@ structure DualMSM (F : Type) where
   left : List (F × Base)
   right : List (F × Base)
 
+/-- One step of the `f_eval` fold of `multi_prepare`, for one set: the points and commitments of
+the set, its `x₁`-combined evaluations, the `q` evaluation read from the proof:
+`acc·x₂ + (proof_eval − r(x₃)) / ∏(x₃ − pointᵢ)`; `none` = an assertion of
+`lagrange_interpolate` fails or `den.invert().unwrap()` panics. -/
+def fEvalStep (inv : F → F) (x2 x3 : F)
+    (pe : ((List F × List (List (F × Base) × List F)) × List F) × F) (acc : Option F) : Option F :=
+  match acc with
+  | none => none
+  | some accEval =>
+    match lagrangeInterpolate inv pe.1.1.1 pe.1.2 with
+    | none => none
+    | some rPoly =>
+      let rEval := evalPoly rPoly x3
+      let den := pe.1.1.1.foldl (fun a p => a * (x3 - p)) 1
+      if den = 0 then none else
+      some (accEval * x2 + (pe.2 - rEval) * inv den)
+
 /-- The body of `multi_prepare` after the grouping: `groups[i]` = the points of set `i` and, for
 every commitment opened at exactly these points, its MSM terms and its evaluations (in the order
 of the points). -/
@@ -236,19 +253,7 @@ def prepareGroups (inv : F → F) (groups : List (List F × List (List (F × Bas
     let qEvalsOnX3 := proof.qEvals.take nsets
     -- f_eval, folded from the last set to the first (`foldr` visits the last set first, as
     -- `.rev().fold(..)` does)
-    let stepOpt := ((groups.zip qEvalSets).zip qEvalsOnX3).foldr
-      (fun (pe : ((List F × List (List (F × Base) × List F)) × List F) × F) (acc : Option F) =>
-        match acc with
-        | none => none
-        | some accEval =>
-          match lagrangeInterpolate inv pe.1.1.1 pe.1.2 with
-          | none => none
-          | some rPoly =>
-            let rEval := evalPoly rPoly x3
-            let den := pe.1.1.1.foldl (fun a p => a * (x3 - p)) 1
-            if den = 0 then none else
-            some (accEval * x2 + (pe.2 - rEval) * inv den))
-      (some 0)
+    let stepOpt := ((groups.zip qEvalSets).zip qEvalsOnX3).foldr (fEvalStep inv x2 x3) (some 0)
     match stepOpt with
     | none => .error .panic
     | some fEval =>
